@@ -124,6 +124,15 @@ def run(ctx):
         inverted = d.with_inverted_generators()
         mic = d.make_inverse_closed()
         mic2 = mic.make_inverse_closed()
+        # the same request through create_graph with EXPLICIT generators: make_inverse_closed=True must give the same generators as the method
+        if len(metas) % 5 == 0:
+            import cayleypy
+            gcg = cayleypy.create_graph(generators_permutations=[list(g) for g in gens], make_inverse_closed=True)
+            ctx.count("create_graph_make_inverse_closed")
+            if [list(map(int, p_)) for p_ in gcg.definition.generators_permutations] != [list(map(int, p_)) for p_ in mic.generators_permutations] \
+                    or not gcg.definition.generators_inverse_closed:
+                ctx.violation("property_fails", "create_graph(generators_permutations=..., make_inverse_closed=True) does not return the inverse-closed definition",
+                              {"class": "perm_def", "gens": gens, "names": None, "name": "", "central": None, "path": [], "claim": "create_graph"}, True)
         path = [rng.randrange(len(gens)) for _ in range(rng.randint(0, 6))]
         try:
             rv = "(Ok " + cnl(d.revert_path(path)) + ")"
@@ -350,6 +359,32 @@ def run(ctx):
             if flag != ref_closed:
                 ctx.violation("property_fails", f"generators_inverse_closed = {flag} for matrices, truth is {ref_closed}", case, True)
             ctx.case_seen(case, True)
+            # the same generators with a NON-SQUARE central state (n x 1 vector, n x 2 ...): inverting / closing the definition keeps it
+            if rng.random() < 0.35:
+                m_ = rng.choice([1, 2, n + 1])
+                cs_ = [[(rng.randrange(modulo) if modulo else rng.randint(-3, 3)) for _ in range(m_)] for _ in range(n)]
+                ctx.count("matrix_non_square_central")
+                try:
+                    d_ns = CayleyGraphDef.for_matrix_group(generators=gens, central_state=cs_)
+                    flat_ = [v for row in cs_ for v in row]
+                    outs_ = []
+                    try:
+                        outs_.append(("with_inverted_generators", d_ns.with_inverted_generators()))
+                    except AssertionError:
+                        pass                                  # a generator without an integer inverse: outside the guaranteed domain
+                    try:
+                        outs_.append(("make_inverse_closed", d_ns.make_inverse_closed()))
+                    except AssertionError:
+                        pass
+                    for nm_, dd_ in outs_:
+                        if [int(v) for v in dd_.central_state] != flat_:
+                            ctx.violation("property_fails", f"{nm_} changed the (non-square) central state of a matrix definition",
+                                          {"class": "matrix_def", "mats": mats, "modulo": modulo, "central": cs_}, True)
+                except AssertionError:
+                    raise
+                except Exception as ex:  # pylint: disable=broad-except
+                    ctx.violation("property_fails", f"a matrix definition with a {n}x{m_} central state cannot be inverted / closed: {type(ex).__name__}: {str(ex)[:80]}",
+                                  {"class": "matrix_def", "mats": mats, "modulo": modulo, "central": cs_}, True)
             ctx.count("matrix_mod0" if modulo == 0 else "matrix_modular")
             if missing is None:
                 missing_lit = cnl([i for i in range(len(gens)) if not any(gens[i].is_inverse_to(h) for h in gens)] if not flag else [])
